@@ -196,6 +196,7 @@ def run(ctx):
     ctx.attempt(current_mesh_observed_rule, ctx)
     ctx.attempt(fresh_fields_rule, ctx)
     ctx.attempt(notify_all_rule, ctx)
+    ctx.attempt(construction_parameter_rule, ctx)
     from ..shared import memo_result_escape_rule as _memo_result_escape_rule
 
     ctx.attempt(_memo_result_escape_rule, ctx, "R14.24", lambda f: f.qualname.startswith("EasyFEA."), 20)
@@ -976,3 +977,50 @@ def notify_all_rule(ctx, rid="R14.28"):
         r.ok("three observers (one already flagged): each told once, in order")
     else:
         r.fail(f.qualname, "notify-all", f.file, f.lineno, "Observable._Notify", f"observers a, b (already waiting for an update), c: the event reaches {got}: an observer that is skipped keeps what it does beyond raising its flag undone (the other problem's flag of a staggered simulation, the memo of a moved mesh)")
+
+
+def construction_parameter_rule(ctx, rid="R14.29"):
+    """'Whatever sequence of public modifications is applied to a simulation ... model parameters ... the next matrices ... are
+    identical to those of a new simulation constructed directly in the final configuration': a PUBLIC, assignable parameter of
+    a simulation class (a `_params` descriptor: assigning it only raises the update flag) whose value the constructor used to
+    decide what it BUILDS - a branch of `__init__` on that parameter whose arms rebind something handed to the base
+    constructor (the element mesh, the model) - cannot be honoured by a later assignment: the flag is raised, the matrices are
+    re-assembled on the structure chosen at construction.  For every descriptor parameter of every simulation class the
+    constructor is searched for such a branch (locals followed to the `super().__init__(...)` call)."""
+    repo = ctx.repo
+    simu = repo.cls(SIMU)
+    r = ctx.rule(rid, "no assignable parameter (descriptor) of a simulation class decides, in a branch of the constructor, what is handed to the base constructor (mesh, model): assigning it later could not rebuild that structure", min_instances=2)
+    for ci in [simu] + sorted(repo.subclasses(simu), key=lambda c: c.qualname):
+        init = ci.methods.get("__init__")
+        for st in ci.node.body:
+            tgt = st.target if isinstance(st, ast.AnnAssign) else (st.targets[0] if isinstance(st, ast.Assign) and len(st.targets) == 1 else None)
+            val = getattr(st, "value", None)
+            if not (isinstance(tgt, ast.Name) and isinstance(val, ast.Call) and (dotted(val.func) or "").startswith("_params.") and (dotted(val.func) or "").endswith("Parameter")):
+                continue
+            P = tgt.id
+            r.instance(fn=f"{ci.qualname}.{P}")
+            if init is None or init.cls is not ci:
+                r.ok(f"{ci.name}.{P}: no constructor of its own")
+                continue
+            # names handed to the base constructor
+            handed = set()
+            for n in ast.walk(init.node):
+                if isinstance(n, ast.Call) and isinstance(n.func, ast.Attribute) and n.func.attr == "__init__" and isinstance(n.func.value, ast.Call) and dotted(n.func.value.func) == "super":
+                    for a in list(n.args) + [k.value for k in n.keywords]:
+                        handed |= {x.id for x in ast.walk(a) if isinstance(x, ast.Name)}
+            bad = None
+            for n in ast.walk(init.node):
+                if not isinstance(n, ast.If):
+                    continue
+                reads = {x.id for x in ast.walk(n.test) if isinstance(x, ast.Name)} | {x.attr for x in ast.walk(n.test) if isinstance(x, ast.Attribute) and isinstance(x.value, ast.Name) and x.value.id == "self"}
+                if P not in reads:
+                    continue
+                rebound = {t.id for arm in (n.body, n.orelse) for s_ in arm for a_ in ast.walk(s_) if isinstance(a_, ast.Assign) for t in a_.targets if isinstance(t, ast.Name)}
+                hit = sorted(rebound & handed)
+                if hit and bad is None:
+                    bad = (n, hit)
+            if bad:
+                n, hit = bad
+                r.fail(f"{ci.qualname}.{P}", f"construction-parameter:{P}", init.file, n.lineno, f"{ci.name}.__init__", f"`{ci.name}.{P}` is an assignable parameter (assigning it raises the update flag only) and the constructor chooses `{', '.join(hit)}` - handed to the base constructor - in `if {norm_text(n.test)[:40]}:`: after `simu.{P} = <other value>` the matrices are re-assembled on the structure built for the old value and differ from those of a simulation constructed with the new one")
+            else:
+                r.ok(f"{ci.name}.{P}: the constructor builds nothing that depends on it")
